@@ -10,6 +10,18 @@ from bumble.keys import PairingKeys
 from pyvc.contracts import Bool, Bytes, Const, Inst, Int, Opt, contract, lemma, model
 from pyvc.ext_c15 import (AnyDyn, DynDict, OptDyn, SymStr, forall_items, hexs, is_bool, is_dict, is_hexstr, is_int, put, put_opt, unhex)
 
+# what surrounds the kernel and is NOT verified (both contract files of C15)
+ENVIRONMENT = [
+    'pyvc/ext_c15.py (value domain added for this property): str as identities (== exact, content uninterpreted; bytes.hex / bytes.fromhex / + as uninterpreted functions with fromhex(hex(b)) == b), JSON documents as an algebraic datatype, mutable dicts of symbolic size as (root term, path) views; spec-level == on JSON values is structural (it does not identify True/1, False/0)',
+    'file system: open / json.load / json.dump / os.replace / pathlib exists, mkdir, with_name are recorded ghost callbacks over (exists, content, tmp_state, tmp_content, dir_exists, trace); os.replace is atomic (POSIX rename)',
+    'json: the file text is json.dumps(content); json.load(json.dump(v)) == v for JSON-representable v (str keys; None/bool/int/str/dict values); sort_keys/indent do not change the value',
+    'the writes json.dump performs on the temporary file are one WRITE effect (they only touch the temporary file)',
+    'pathlib: p.with_name(p.name + ".tmp") is a path different from p in the same directory',
+    'power-loss durability (no fsync) and concurrent processes writing the same file are outside the property',
+    'update(name, keys): `keys` is any object whose to_dict() returns a well-formed entry (ghost.kd); PairingKeys.to_dict has its own contract (c15_keys.py)',
+    'declared field types of PairingKeys / PairingKeys.Key (bytes, bool, Optional[int], Optional[bytes]) are assumed for the objects handed in',
+]
+
 KEY_NAMES = ('ltk', 'ltk_central', 'ltk_peripheral', 'irk', 'csrk', 'link_key')
 
 # ---------------------------------------------------------------------------
